@@ -15,7 +15,7 @@ EXPLANATION = (
     "every activation method (P2 x 7); who-may-call: only Rule.trigger (or a caller guarded by the rule's enabled flag) modifies a consequent"
 )
 ASSUMPTIONS = ["decides how the stages are connected on every path; the numeric values of the stages are not decided"]
-FLOORS = {"P1": 3, "P2": 21, "A-sem": 2, "O-dea": 1, "P3": 3, "P4": 3, "P5": 5, "P6": 2, "P7": 3, "P8": 3, "P9": 7, "P10": 2}
+FLOORS = {"P1": 3, "P2": 21, "A-sem": 2, "O-dea": 1, "P3": 3, "P4": 3, "P5": 3, "P6": 2, "P7": 3, "P8": 3, "P9": 7, "P10": 2}
 
 
 def run(check: Check) -> None:
@@ -29,7 +29,9 @@ def run(check: Check) -> None:
         activation_semantics(check, cls, ("conjunction", "disjunction", "implication"))
     wiring.p3_weight(check)
     wiring.p4_trigger(check)
-    wiring.modify_rules(check, p5=True, l1=False, h1=False)
+    from .consequent_sem import consequent_semantics
+
+    consequent_semantics(check, rule="P5", aspects=("terms", "implication", "no-internal-error"))
     wiring.p6_activated_membership(check)
     wiring.p7_aggregated_membership(check)
     wiring.p8_defuzzify_args(check)
